@@ -8,12 +8,16 @@ import (
 	"encoding/json"
 	"errors"
 	"io"
+	"mime/multipart"
 	"net/http"
 	"net/http/httptest"
+	"net/url"
+	"strconv"
 	"strings"
 
 	"github.com/getkin/kin-openapi/openapi3"
 	"github.com/getkin/kin-openapi/openapi3filter"
+	"github.com/getkin/kin-openapi/routers"
 	"github.com/getkin/kin-openapi/routers/gorillamux"
 )
 
@@ -39,6 +43,16 @@ type c13Case struct {
 	Other   bool   `json:"other"`
 	Dflt    any    `json:"dflt"`
 	Ct      string `json:"ct"`
+	Mt      string `json:"mt"`
+	// parameters next to the body (history cases): per location "none" | "absent" | "present"
+	PP    map[string]string `json:"pp"`
+	PDflt map[string]any    `json:"pdflt"`
+	// history cases: a pool of requests and a sequence of steps over them
+	Reqs  []c13Case `json:"reqs"`
+	Steps []struct {
+		Op string      `json:"op"`
+		R  json.Number `json:"r"`
+	} `json:"steps"`
 }
 
 type c13Closable struct {
@@ -101,41 +115,91 @@ func taggedOfJSON(s string) any {
 	return t
 }
 
-func c13Run(c *Case) []any {
-	var tc c13Case
-	c.Decode(&tc)
-	var raw map[string]any
-	c.Decode(&raw)
-	line := map[string]any{"case": c.Idx, "c": raw}
-	op := map[string]any{"responses": map[string]any{"200": map[string]any{"description": "ok"}}}
-	doc := map[string]any{"openapi": "3.0.3", "info": map[string]any{"title": "t", "version": "1"}}
-	method, target := "POST", "/t"
-	var bodyText string
-	hdr := http.Header{}
-	if tc.Kind == "body" {
-		op["requestBody"] = map[string]any{"required": true, "content": map[string]any{"application/json": map[string]any{
-			"schema": absSchemaToOpenAPI(tc.Schema)}}}
-		if tc.Sec != "none" {
-			doc["components"] = map[string]any{"securitySchemes": map[string]any{
-				"A": map[string]any{"type": "apiKey", "in": "header", "name": "X-A"},
-				"B": map[string]any{"type": "apiKey", "in": "header", "name": "X-B"}}}
-			switch tc.Sec {
-			case "fail_read_then_pass":
-				op["security"] = []any{map[string]any{"A": []any{}}, map[string]any{"B": []any{}}}
-			default:
-				op["security"] = []any{map[string]any{"A": []any{}}}
+// c13Sent realises the abstract body value in the media type of the case: the bytes sent and the Content-Type header.
+func c13Sent(tc *c13Case) (string, string) {
+	mt := tc.Mt
+	if mt == "" {
+		mt = "application/json"
+	}
+	ct := tc.Ct
+	if ct == "" {
+		ct = mt
+	}
+	fields := func() ([]string, []string) {
+		m := tc.V.(map[string]any)
+		ks, vs := asSlice(m["k"]), asSlice(m["v"])
+		var names, texts []string
+		for i := range ks {
+			names = append(names, ks[i].(string))
+			if fv := vs[i].(map[string]any); fv["t"] == "str" {
+				texts = append(texts, csToString(fv["cs"]))
+			} else {
+				texts = append(texts, taggedToJSONText(fv))
 			}
 		}
-		bodyText = taggedToJSONText(tc.V)
-		switch tc.Pad {
-		case "newline":
-			bodyText += "\n"
-		case "spaces":
-			bodyText = "  " + bodyText + " \r\n"
+		return names, texts
+	}
+	switch mt {
+	case "application/x-www-form-urlencoded":
+		names, texts := fields()
+		var parts []string
+		for i := range names {
+			parts = append(parts, url.QueryEscape(names[i])+"="+url.QueryEscape(texts[i]))
 		}
-		hdr.Set("Content-Type", tc.Ct)
-	} else {
-		method = "GET"
+		return strings.Join(parts, "&"), ct
+	case "multipart/form-data":
+		names, texts := fields()
+		var buf bytes.Buffer
+		w := multipart.NewWriter(&buf)
+		w.SetBoundary("c13boundary")
+		for i := range names {
+			w.WriteField(names[i], texts[i])
+		}
+		w.Close()
+		return buf.String(), w.FormDataContentType()
+	}
+	// the JSON family, and YAML (JSON text is YAML)
+	text := taggedToJSONText(tc.V)
+	switch tc.Pad {
+	case "newline":
+		text += "\n"
+	case "spaces":
+		text = "  " + text + " \r\n"
+	}
+	return text, ct
+}
+
+// c13Parsed projects forwarded body bytes to a tagged value: what the next handler decodes from them
+// (JSON text by encoding/json; YAML and form bodies by the decoder the library exports for that media type).
+func c13Parsed(tc *c13Case, text string, hdr http.Header, mtDecl *openapi3.MediaType) any {
+	var dec openapi3filter.BodyDecoder
+	switch tc.Mt {
+	case "application/yaml":
+		dec = openapi3filter.YamlBodyDecoder
+	case "application/x-www-form-urlencoded":
+		dec = openapi3filter.UrlencodedBodyDecoder
+	case "multipart/form-data":
+		dec = openapi3filter.MultipartBodyDecoder
+	default:
+		return taggedOfJSON(text)
+	}
+	var v any
+	var err error
+	if p, _ := guard(func() {
+		v, err = dec(strings.NewReader(text), hdr, mtDecl.Schema, func(name string) *openapi3.Encoding { return mtDecl.Encoding[name] })
+	}); p || err != nil {
+		return nil
+	}
+	if t, ok := goToTagged(v); ok {
+		return t
+	}
+	return nil
+}
+
+// c13Op builds the operation of one request description (body cases, parameter cases and the requests of a history).
+func c13Op(tc *c13Case, doc map[string]any) map[string]any {
+	op := map[string]any{"responses": map[string]any{"200": map[string]any{"description": "ok"}}}
+	if tc.Kind == "param" {
 		var sch map[string]any
 		switch tc.Shape {
 		case "int":
@@ -153,6 +217,52 @@ func c13Run(c *Case) []any {
 			p["explode"] = false
 		}
 		op["parameters"] = []any{p, map[string]any{"name": "o", "in": "query", "schema": map[string]any{"type": "string"}}}
+		return op
+	}
+	mt := tc.Mt
+	if mt == "" {
+		mt = "application/json"
+	}
+	op["requestBody"] = map[string]any{"required": true, "content": map[string]any{mt: map[string]any{
+		"schema": absSchemaToOpenAPI(tc.Schema)}}}
+	if tc.Sec != "none" {
+		doc["components"] = map[string]any{"securitySchemes": map[string]any{
+			"A": map[string]any{"type": "apiKey", "in": "header", "name": "X-A"},
+			"B": map[string]any{"type": "apiKey", "in": "header", "name": "X-B"}}}
+		switch tc.Sec {
+		case "fail_read_then_pass":
+			op["security"] = []any{map[string]any{"A": []any{}}, map[string]any{"B": []any{}}}
+		default:
+			op["security"] = []any{map[string]any{"A": []any{}}}
+		}
+	}
+	// parameters with defaults next to the body: an integer array in the query, a string header, an integer cookie
+	var params []any
+	for _, loc := range []string{"query", "header", "cookie"} {
+		if tc.PP == nil || tc.PP[loc] == "none" || tc.PP[loc] == "" {
+			continue
+		}
+		sch := map[string]any{"default": json.RawMessage(taggedToJSONText(tc.PDflt[loc]))}
+		switch loc {
+		case "query":
+			sch["type"], sch["items"] = "array", map[string]any{"type": "integer"}
+		case "header":
+			sch["type"] = "string"
+		case "cookie":
+			sch["type"] = "integer"
+		}
+		params = append(params, map[string]any{"name": "p" + loc[:1], "in": loc, "schema": sch})
+	}
+	if params != nil {
+		op["parameters"] = params
+	}
+	return op
+}
+
+// c13Request builds the request of one request description; returns it with the body bytes sent.
+func c13Request(tc *c13Case, path string, clientGB *int) (*http.Request, string) {
+	if tc.Kind == "param" {
+		hdr := http.Header{}
 		var q []string
 		if tc.Other {
 			q = append(q, "o=v")
@@ -169,54 +279,48 @@ func c13Run(c *Case) []any {
 			}
 		}
 		if len(q) > 0 {
-			target += "?" + strings.Join(q, "&")
+			path += "?" + strings.Join(q, "&")
 		}
-	}
-	doc["paths"] = map[string]any{"/t": map[string]any{strings.ToLower(method): op}}
-	data, _ := json.Marshal(doc)
-	d, err := openapi3.NewLoader().LoadFromData(data)
-	if err == nil {
-		err = d.Validate(context.Background())
-	}
-	if err != nil {
-		line["doc"] = "error"
-		line["docErr"] = err.Error()
-		return []any{line}
-	}
-	line["doc"] = "ok"
-	router, err := gorillamux.NewRouter(d)
-	if err != nil {
-		panic(err)
-	}
-	var req *http.Request
-	if tc.Kind == "body" {
-		req = httptest.NewRequest(method, target, strings.NewReader(bodyText))
-		if tc.Preset {
-			bt := bodyText
-			// bodies that really honour Close (a re-opened spool file does): reading after Close fails
-			req.Body = &c13Closable{r: strings.NewReader(bt)}
-			req.GetBody = func() (io.ReadCloser, error) { return &c13Closable{r: strings.NewReader(bt)}, nil }
-		} else {
-			req.GetBody = nil
+		req := httptest.NewRequest("GET", path, nil)
+		for k, v := range hdr {
+			req.Header[k] = v
 		}
-		if tc.Unsized {
-			req.Body = io.NopCloser(io.MultiReader(strings.NewReader(bodyText)))
-			req.ContentLength = 0
+		return req, ""
+	}
+	bodyText, ct := c13Sent(tc)
+	if tc.PP["query"] == "present" {
+		path += "?pq=3"
+	}
+	req := httptest.NewRequest("POST", path, strings.NewReader(bodyText))
+	if tc.Preset {
+		bt := bodyText
+		// bodies that really honour Close (a re-opened spool file does): reading after Close fails
+		req.Body = &c13Closable{r: strings.NewReader(bt)}
+		req.GetBody = func() (io.ReadCloser, error) {
+			*clientGB++
+			return &c13Closable{r: strings.NewReader(bt)}, nil
 		}
 	} else {
-		req = httptest.NewRequest(method, target, nil)
+		req.GetBody = nil
 	}
-	for k, v := range hdr {
-		req.Header[k] = v
+	if tc.Unsized {
+		req.Body = io.NopCloser(io.MultiReader(strings.NewReader(bodyText)))
+		req.ContentLength = 0
 	}
-	route, pp, err := router.FindRoute(req)
-	if err != nil {
-		panic("harness: c13 route: " + err.Error())
+	req.Header.Set("Content-Type", ct)
+	if tc.PP["header"] == "present" {
+		req.Header.Set("ph", "s")
 	}
-	calls := 0
-	opts := &openapi3filter.Options{SkipSettingDefaults: tc.Skip, MultiError: tc.Sec == "fail_read_multi",
+	if tc.PP["cookie"] == "present" {
+		req.Header.Set("Cookie", "pc=7")
+	}
+	return req, bodyText
+}
+
+// c13Options: the validation options of one request description (the authentication callback reads the body or not, passes or rejects).
+func c13Options(tc *c13Case) *openapi3filter.Options {
+	return &openapi3filter.Options{SkipSettingDefaults: tc.Skip, MultiError: tc.Sec == "fail_read_multi",
 		AuthenticationFunc: func(_ context.Context, in *openapi3filter.AuthenticationInput) error {
-			calls++
 			r := in.RequestValidationInput.Request
 			switch tc.Sec {
 			case "pass_ignore":
@@ -236,46 +340,218 @@ func c13Run(c *Case) []any {
 			}
 			return nil
 		}}
-	input := &openapi3filter.RequestValidationInput{Request: req, PathParams: pp, Route: route, Options: opts}
-	before := docDigest(d)
-	line["sent"] = bodyText
-	line["q0"] = req.URL.RawQuery
-	validate := func(tag string) {
-		// every validation uses a fresh input, as the next handler in a chain would
-		input = &openapi3filter.RequestValidationInput{Request: req, PathParams: pp, Route: route, Options: opts}
-		var verr error
-		if p, _ := guard(func() { verr = openapi3filter.ValidateRequest(context.Background(), input) }); p {
-			line["verdict"+tag] = "panic"
-		} else if verr == nil {
-			line["verdict"+tag] = "ok"
+}
+
+// c13Live is one request of a case while it is being handled.
+type c13Live struct {
+	tc    *c13Case
+	req   *http.Request
+	route *routers.Route
+	pp    map[string]string
+	opts  *openapi3filter.Options
+	sent  string
+	// number of calls of the GetBody the client came with (tells it from one the library installed)
+	clientGB *int
+}
+
+// c13Load builds and loads one document with one path per request description and routes the requests.
+func c13Load(tcs []*c13Case, line map[string]any) (*openapi3.T, []*c13Live) {
+	doc := map[string]any{"openapi": "3.0.3", "info": map[string]any{"title": "t", "version": "1"}}
+	paths := map[string]any{}
+	for i, tc := range tcs {
+		method := "post"
+		if tc.Kind == "param" {
+			method = "get"
+		}
+		paths["/t"+strconv.Itoa(i+1)] = map[string]any{method: c13Op(tc, doc)}
+	}
+	doc["paths"] = paths
+	data, _ := json.Marshal(doc)
+	d, err := openapi3.NewLoader().LoadFromData(data)
+	if err == nil {
+		err = d.Validate(context.Background())
+	}
+	if err != nil {
+		line["doc"] = "error"
+		line["docErr"] = err.Error()
+		return nil, nil
+	}
+	line["doc"] = "ok"
+	router, err := gorillamux.NewRouter(d)
+	if err != nil {
+		panic(err)
+	}
+	var live []*c13Live
+	for i, tc := range tcs {
+		clientGB := new(int)
+		req, sent := c13Request(tc, "/t"+strconv.Itoa(i+1), clientGB)
+		route, pp, err := router.FindRoute(req)
+		if err != nil {
+			panic("harness: c13 route: " + err.Error())
+		}
+		live = append(live, &c13Live{tc: tc, req: req, route: route, pp: pp, opts: c13Options(tc), sent: sent, clientGB: clientGB})
+	}
+	return d, live
+}
+
+// validate: one ValidateRequest with a fresh input, as the next handler in a chain would; the verdict goes to o["verdict"+tag].
+func (lv *c13Live) validate(o map[string]any, tag string) {
+	input := &openapi3filter.RequestValidationInput{Request: lv.req, PathParams: lv.pp, Route: lv.route, Options: lv.opts}
+	var verr error
+	if p, _ := guard(func() { verr = openapi3filter.ValidateRequest(context.Background(), input) }); p {
+		o["verdict"+tag] = "panic"
+	} else if verr == nil {
+		o["verdict"+tag] = "ok"
+	} else {
+		o["verdict"+tag] = "error"
+		var parts []any
+		if me, ok := verr.(openapi3.MultiError); ok {
+			for _, e := range me {
+				parts = append(parts, c07Part(e))
+			}
 		} else {
-			line["verdict"+tag] = "error"
-			var parts []any
-			if me, ok := verr.(openapi3.MultiError); ok {
-				for _, e := range me {
-					parts = append(parts, c07Part(e))
+			parts = append(parts, c07Part(verr))
+		}
+		o["parts"+tag] = parts
+	}
+}
+
+// readBody: the next handler reads the body in full (and asks GetBody, when there is one, for a second copy).
+func (lv *c13Live) readBody(o map[string]any, tag string) string {
+	after, gb := drain(lv.req)
+	o["after"+tag], o["getbody"+tag] = after, gb
+	o["clen"+tag] = lv.req.ContentLength
+	o["len"+tag] = len(after)
+	if lv.req.Body != nil {
+		if mtDecl := lv.route.Operation.RequestBody.Value.Content.Get(lv.req.Header.Get("Content-Type")); mtDecl != nil {
+			if t := c13Parsed(lv.tc, after, lv.req.Header, mtDecl); t != nil {
+				o["parsed"+tag] = t
+			}
+		}
+	}
+	return after
+}
+
+// carriers: the other places a default can be installed in -- query string, header, cookie -- as forwarded:
+// raw query, number of values of the header / cookie, and what each parameter decodes to in the forwarded request.
+func (lv *c13Live) carriers(o map[string]any) {
+	// what kind of reader / rewind function is installed now: the client's (honours Close) or one the library made
+	o["bk"] = "lib"
+	if _, ok := lv.req.Body.(*c13Closable); ok {
+		o["bk"] = "client"
+	}
+	o["gk"] = "none"
+	if lv.req.GetBody != nil {
+		n := *lv.clientGB
+		if rc, err := lv.req.GetBody(); err == nil {
+			rc.Close()
+		}
+		o["gk"] = "lib"
+		if *lv.clientGB > n {
+			o["gk"] = "client"
+		}
+	}
+	o["q"] = lv.req.URL.RawQuery
+	o["hn"] = len(lv.req.Header.Values("ph"))
+	cn := 0
+	for _, ck := range lv.req.Cookies() {
+		if ck.Name == "pc" {
+			cn++
+		}
+	}
+	o["cn"] = cn
+	for _, loc := range []string{"query", "header", "cookie"} {
+		param := lv.route.Operation.Parameters.GetByInAndName(loc, "p"+loc[:1])
+		if param == nil {
+			continue
+		}
+		fresh := &openapi3filter.RequestValidationInput{Request: lv.req, PathParams: lv.pp, Route: lv.route, Options: lv.opts}
+		var val any
+		var found bool
+		var derr error
+		if p, _ := guard(func() { val, found, derr = openapi3filter.VerifDecodeStyledParameter(param, fresh) }); !p && derr == nil && found {
+			if t, ok := goToTagged(val); ok {
+				o["d"+loc[:1]] = t
+			}
+		}
+	}
+}
+
+// c13Hist: a history over a pool of requests in one process.  V = validate; R = the next handler reads the body in
+// full and the request is rewound the way a transport does (GetBody when there is one, else the bytes read).
+// Reads are NOT forced after each validation: what a request carries is looked at when the history says so.
+func c13Hist(c *Case, tc *c13Case, line map[string]any) []any {
+	var tcs []*c13Case
+	for i := range tc.Reqs {
+		tc.Reqs[i].Kind = "body"
+		tcs = append(tcs, &tc.Reqs[i])
+	}
+	d, live := c13Load(tcs, line)
+	if d == nil {
+		return []any{line}
+	}
+	before := docDigest(d)
+	var sent, q0 []any
+	for _, lv := range live {
+		sent = append(sent, lv.sent)
+		q0 = append(q0, lv.req.URL.RawQuery)
+	}
+	line["sent"], line["q0"] = sent, q0
+	var obs []any
+	for _, st := range tc.Steps {
+		lv := live[asInt(st.R)-1]
+		o := map[string]any{"op": st.Op}
+		switch st.Op {
+		case "V":
+			lv.validate(o, "")
+		case "R":
+			after := lv.readBody(o, "")
+			if lv.req.GetBody != nil {
+				if rc, err := lv.req.GetBody(); err == nil {
+					lv.req.Body = rc
 				}
 			} else {
-				parts = append(parts, c07Part(verr))
+				lv.req.Body = io.NopCloser(bytes.NewReader([]byte(after)))
 			}
-			line["parts"+tag] = parts
 		}
+		lv.carriers(o)
+		obs = append(obs, o)
+	}
+	line["obs"] = obs
+	line["docSame"] = before == docDigest(d)
+	return []any{line}
+}
+
+func c13Run(c *Case) []any {
+	var tc c13Case
+	c.Decode(&tc)
+	var raw map[string]any
+	c.Decode(&raw)
+	line := map[string]any{"case": c.Idx, "c": raw}
+	if tc.Kind == "hist" {
+		return c13Hist(c, &tc, line)
+	}
+	d, live := c13Load([]*c13Case{&tc}, line)
+	if d == nil {
+		return []any{line}
+	}
+	lv := live[0]
+	req := lv.req
+	before := docDigest(d)
+	line["sent"] = lv.sent
+	line["q0"] = req.URL.RawQuery
+	validate := func(tag string) {
+		lv.validate(line, tag)
 		if tc.Kind == "body" {
-			after, gb := drain(req)
-			line["after"+tag], line["getbody"+tag] = after, gb
-			line["clen"+tag] = req.ContentLength
-			line["len"+tag] = len(after)
-			if t := taggedOfJSON(after); t != nil {
-				line["parsed"+tag] = t
-			}
+			after := lv.readBody(line, tag)
 			// hand the forwarded request to the next reader the way a proxy would
 			req.Body = io.NopCloser(bytes.NewReader([]byte(after)))
 		} else {
 			line["q"+tag] = req.URL.RawQuery
 			line["h"+tag] = strings.Join(req.Header.Values("p"), "|")
 			line["c"+tag] = strings.Join(req.Header.Values("Cookie"), "|")
-			param := route.Operation.Parameters.GetByInAndName(tc.Loc, "p")
-			fresh := &openapi3filter.RequestValidationInput{Request: req, PathParams: pp, Route: route, Options: opts}
+			param := lv.route.Operation.Parameters.GetByInAndName(tc.Loc, "p")
+			fresh := &openapi3filter.RequestValidationInput{Request: req, PathParams: lv.pp, Route: lv.route, Options: lv.opts}
 			var val any
 			var found bool
 			var derr error
